@@ -32,7 +32,7 @@ MANIFEST = {
     "text": (
         "Thin partial claim. Decides only: the composite observer concatenates, "
         "along axis 1, the feature arrays of its components read afresh on "
-        "every call, in the same order and nesting as its column names; every "
+        "every call, in the same order and nesting as its column names, into a table that is replaced as a whole (no pre-allocated entries survive); every "
         "observer that reads another in update acquired it before subscribing "
         "(so the composite and the graph updater see current values); the "
         "observer-type registry is total and name-consistent; feature "
